@@ -40,6 +40,29 @@ Theorem C13_constant_at_nodes : forall x y, ssorted x -> x <> [] -> length x = l
 Proof. exact constant_at_nodes. Qed.
 Print Assumptions C13_constant_at_nodes.
 
+(** ======== Weaver level (class Weaver in weaver.py; model coq/Model/Weaver.v) ======== *)
+From TW Require Import Model.WeaverSpec Model.Interval Proofs.WeaverLevelProofs.
+(** interpolate(n): exactly n equally spaced points spanning the same range *)
+Theorem C13_weaver_interp_n : forall s n a s', (2 <= n)%Z -> step s (OInterpN n a) = (s', Ok tt) ->
+  let N := Z.to_nat n in
+  length (wx s') = N /\ headq (wx s') = headq (wx s) /\ lastq (wx s') = lastq (wx s) /\
+  forall i, (i + 1 < N)%nat -> nthq (i + 1) (wx s') - nthq i (wx s') = (lastq (wx s) - headq (wx s)) / Qc_of_nat (N - 1).
+Proof. exact weaver_interp_n. Qed.
+Print Assumptions C13_weaver_interp_n.
+
+(** an explicit grid is accepted iff it shares both end points; otherwise ValueError and nothing changes *)
+Theorem C13_weaver_interp_grid : forall s g a,
+  ((headq g = headq (wx s) /\ lastq g = lastq (wx s)) ->
+     forall ys, interp_eval (wx s) (wy s) g a = Ok ys -> step s (OInterpGrid g a) = (set_xy s g ys, Ok tt)) /\
+  ((headq g <> headq (wx s) \/ lastq g <> lastq (wx s)) -> step s (OInterpGrid g a) = (s, Raise ValueError)).
+Proof. exact weaver_interp_grid. Qed.
+Print Assumptions C13_weaver_interp_grid.
+
+Theorem C13_weaver_interp_linear_values : forall s n s', step s (OInterpN n (IOwn MLinear)) = (s', Ok tt) ->
+  wy s' = interp_linear (wx s) (wy s) (wx s').
+Proof. exact weaver_interp_linear_values. Qed.
+Print Assumptions C13_weaver_interp_linear_values.
+
 Example C13_example :
   list_eqb Qc_eqb (interp_linear [qz 0; qz 2; qz 3] [qz 1; qz 5; qz 2] [qz (-1); qz 1; qz 2; qf 5 2; qz 9])
                   [qz 1; qz 3; qz 5; qf 7 2; qz 2] = true.
